@@ -115,9 +115,9 @@ AllDescs ==
   IN RD \cup {d \in DD : d.n <= MaxN}
 \* the tabulated denotation is the definitional one of Stars
 Theorems ==
-  LET T == [n \in 0..MaxN |-> Reach(J, n)]
+  LET T == Force([n \in 0..MaxN |-> Reach(J, n)])
       GG == G
-      DT == [d \in AllDescs |-> DenT(W, C, T, d)]
+      DT == Force([d \in AllDescs |-> DenT(W, C, T, d)])
   IN /\ NetworkOK(W, C, GG, J)                                             \* InputOK
      /\ \A d \in AllDescs : DT[d] = Den(W, C, J, d)                        \* DenotationAgrees
      /\ \A d \in AllDescs : Closed(W, C, GG, DT[d])                        \* AllDenotationsClosed
